@@ -257,6 +257,9 @@ func connCase(t *testing.T, p *world.PKI, sp connSpec, thorough bool, seed uint6
 	var bad []string
 	for _, ord := range ords {
 		o.Evals++
+		if o.Evals%50 == 0 {
+			run.Heartbeat()
+		}
 		_, ok, _, d := connExec(t, p, sp, ord, seed)
 		if !ok {
 			bad = append(bad, fmt.Sprintf("arrival order %v: %s", ord, d))
